@@ -126,6 +126,11 @@ def pool(t, cls, pos, symname):
             return nested_ok.get(vt)
         if cls == "empty":
             return coll([])
+        if cls in ("neg", "zero", "huge") and vs[0] is not None and ks[0] is not None:
+            # a collection whose own arithmetic is at a boundary: take with a negative / zero / huge count (its Count()
+            # and its iteration have to agree, and consumers that size buffers from Count() meet these)
+            n = {"neg": INT(-1), "zero": INT(0), "huge": INT(HUGE_INT)}[cls]
+            return call("take", coll([[ks[0], vs[0]], [ks[1], vs[1]]]), n)
         if cls == "wrong-kind":
             return INT(7)
         if cls == "wrong-elems":
